@@ -7,7 +7,7 @@ TRACE_CFG = "UcdaoTrace.cfg"
 
 MANIFEST_ENTRY = dict(engine="Ucdao", design="§4 C12",
    technique="TLA+ spec Ucdao.tla: TLC exhaustive model checking of the ledger invariants and step effects; TLC-simulated behaviours replayed on the real x/ucdao message server; every recorded step validated by TLC against the property layer (trace validation)",
-   text="Exhaustive TLC model checking of the DAO ledger design (all sequences of fund/transfer messages over 3 accounts, 3 denominations, small amounts, including owner=newOwner, refused denominations and the disabled module) proves the ledger invariants and exact step effects on the model; the binding to the code is two-way: TLC-generated behaviours are executed on the real message server and every step of those and of seeded random large-amount scenarios is checked by TLC against the effect functions and invariants of the property layer.",
+   text="Exhaustive TLC model checking of the DAO ledger design (all sequences of fund/transfer messages over 3 accounts, 3 denominations, small amounts, including owner=newOwner, refused denominations and the disabled module; a second configuration interleaves bank MsgSend / MsgMultiSend whose recipients include the DAO module account, with the hypothetical unblocked module account as counterexample witness) proves the ledger invariants and exact step effects on the model; the binding to the code is two-way: TLC-generated behaviours are executed on the real message server and every step of those and of seeded random large-amount scenarios is checked by TLC against the effect functions and invariants of the property layer.",
    note="Bounded by the constants in specs/Ucdao_*.cfg; messages run through MsgServiceRouter handlers on a cached context (baseapp.runMsgs semantics) rather than full DeliverTx; TLC, the Json community module and the BigNum override are trusted.")
 
 
@@ -36,6 +36,14 @@ def run(c):
     cfg = "Ucdao_intended.cfg" if quick else "Ucdao_intended_thorough.cfg"
     r = tlc_exhaustive(wd, "Ucdao.tla", cfg, workers=8, timeout=3000)
     c.add_tlc(cfg, r)
+    # the DAO messages interleaved with messages of another module that moves coins (bank send / multi-send
+    # whose recipients include the DAO module account); the hypothetical chain on which the module account is
+    # not on the blocked list must produce a counterexample (non-vacuity of P for that class)
+    cfg = "Ucdao_env.cfg" if quick else "Ucdao_env_thorough.cfg"
+    r = tlc_exhaustive(wd, "Ucdao.tla", cfg, workers=8, timeout=3000)
+    c.add_tlc(cfg, r)
+    r = tlc_exhaustive(wd, "Ucdao.tla", "Ucdao_env_witness.cfg", must="fail", workers=4)
+    c.add_tlc("Ucdao_env_witness.cfg", r)
     r = tlc_exhaustive(wd, "Ucdao.tla", "Ucdao_defect_comp.cfg", workers=4)
     c.add_tlc("Ucdao_defect_comp.cfg", r)
     r = tlc_exhaustive(wd, "Ucdao.tla", "Ucdao_defect_strict.cfg", must="fail", workers=4)
@@ -61,6 +69,9 @@ def run(c):
     c.extra["conformance_divergence_count"] = len(res["div"])
     accepted = 0
     classes = set()
+    foreign = {}         # (ev, some recipient is the DAO module account, accepted) -> count
+    ratio_frac = {"exact": 0, "below_half": 0, "half_or_more": 0}   # accepted ratio transfers by the fractional part of balance x ratio
+    prev = None
     with open(os.path.join(wd, "trace.ndjson")) as fh:
         for i, line in enumerate(fh):
             o = json.loads(line)
@@ -68,9 +79,26 @@ def run(c):
                 accepted += 1 if o["ok"] else 0
                 a = o["args"]
                 classes.add((o["ev"], o["ok"], a.get("owner") == a.get("newOwner") if "owner" in a else None))
+                if o["ev"] in ("bank_send", "bank_multisend"):
+                    tos = [a["to"]] if o["ev"] == "bank_send" else [x["to"] for x in a["outs"]]
+                    k = "%s,%s,%s" % (o["ev"], "to=dao" if "dao" in tos else "to=acct", "accepted" if o["ok"] else "refused")
+                    foreign[k] = foreign.get(k, 0) + 1
+                if o["ev"] == "transfer_ratio" and o["ok"] and a["owner"] != a["newOwner"]:
+                    num, den = int(a["ratio"][0]), int(a["ratio"][1])
+                    for bal in prev["share"][a["owner"]].values():
+                        rem = int(bal) * num % den
+                        ratio_frac["exact" if rem == 0 else "below_half" if 2 * rem < den else "half_or_more"] += 1
+            prev = o["post"]
             if i in (1, 2, 3) or (o["ev"] == "transfer_ratio" and o["ok"] and len(c.samples) < 5):
                 c.samples.append({k: o[k] for k in ("ev", "args", "ok", "err") if k in o} | {"post_share": o["post"]["share"], "post_total": o["post"]["total"]})
     c.extra["accepted_steps"] = accepted
+    c.extra["foreign_messages"] = foreign
+    c.extra["ratio_transfers_by_fraction"] = ratio_frac
+    for k in ("bank_send,to=dao,refused", "bank_multisend,to=dao,refused", "bank_send,to=acct,accepted", "bank_multisend,to=acct,accepted"):
+        if foreign.get(k, 0) < 5:
+            raise Infra("vacuous run: foreign message class %s exercised %d times" % (k, foreign.get(k, 0)))
+    if ratio_frac["half_or_more"] < 10 or ratio_frac["below_half"] < 10:
+        raise Infra("vacuous run: ratio transfers with a fractional product: %r" % ratio_frac)
     c.extra["step_classes_exercised"] = len(classes)
     if accepted < 50:
         raise Infra("vacuous run: only %d accepted steps" % accepted)
@@ -96,6 +124,8 @@ def run(c):
             raise Infra("signature %s did not reproduce from %s" % (s, path))
     c.add_violations(confirmed)
     c.assumptions += [
+        "a transfer by ratio states the amount ratio x balance; P reads 'exactly' over whole base units as: never more than ratio x balance and less than one unit short of it",
+        "of the ways coins can reach an address only bank MsgSend and MsgMultiSend are interleaved with the DAO messages (not IBC receive, EVM value transfer, vesting or erc20 conversion)",
         "TLC 1.8.0 and the BigNum Java override (java/BigNum.java) are trusted",
         "the projection in harness/ucdao.go reads the real stores through keeper getters and the Holders query",
         "messages are executed through MsgServiceRouter handlers on a cached context (as baseapp.runMsgs does), not through full DeliverTx",
